@@ -48,8 +48,26 @@ pub struct FrameAttempt {
     pub scheme: String,
 }
 
+/// A SELFDESTRUCT instruction that completed (ground truth read from the public journaled state).
+#[derive(Clone, Debug, PartialEq)]
+pub struct SdEvent {
+    pub address: Address,
+    pub beneficiary: Address,
+    pub balance_before: U256,
+    pub balance_after: U256,
+    pub depth: u64,
+}
+
 #[derive(Default, Debug)]
 pub struct Mon {
+    /// every completed SELFDESTRUCT, in execution order (also those in frames that later revert)
+    pub sd_all: Vec<SdEvent>,
+    /// SELFDESTRUCTs of frames that are still open, one list per open frame
+    pub sd_stack: Vec<Vec<SdEvent>>,
+    /// SELFDESTRUCTs whose frames (and all ancestors) completed successfully
+    pub sd_committed: Vec<SdEvent>,
+    /// number of opcode-0xff executions that did not complete
+    pub sd_failed: u64,
     pub record_steps: bool,
     pub steps: Vec<Step>,
     pub max_steps: usize,
@@ -104,7 +122,29 @@ pub fn monitor_register<EXT: HasMon, DB: Database>(h: &mut EvmHandler<'_, EXT, D
         } else {
             None
         };
+        let sd_pre = if op == 0xff && !interp.is_eof {
+            let a = interp.contract.target_address;
+            let bal = host.evm.journaled_state.state.get(&a).map(|x| x.info.balance).unwrap_or_default();
+            let ben = interp.stack.data().last().map(|w| Address::from_word(revm::primitives::B256::from(w.to_be_bytes::<32>())));
+            Some((a, bal, ben))
+        } else {
+            None
+        };
         prev(interp, host);
+        if let Some((a, bal, ben)) = sd_pre {
+            if interp.instruction_result == InstructionResult::SelfDestruct {
+                let after = host.evm.journaled_state.state.get(&a).map(|x| x.info.balance).unwrap_or_default();
+                let ev = SdEvent { address: a, beneficiary: ben.unwrap_or_default(), balance_before: bal, balance_after: after, depth };
+                let m = host.external.mon();
+                m.sd_all.push(ev.clone());
+                match m.sd_stack.last_mut() {
+                    Some(l) => l.push(ev),
+                    None => m.sd_committed.push(ev),
+                }
+            } else {
+                host.external.mon().sd_failed += 1;
+            }
+        }
         // instruction pointer must stay inside the code buffer whenever execution continues
         if interp.instruction_result == InstructionResult::Continue && !ip_in_bounds(interp) {
             let m = host.external.mon();
@@ -227,6 +267,7 @@ fn finish_attempt<EXT: HasMon, DB: Database, E>(ctx: &mut Context<EXT, DB>, mut 
             m.attempts.push(att);
             let idx = m.attempts.len() - 1;
             m.open.push(idx);
+            m.sd_stack.push(vec![]);
         }
         Ok(FrameOrResult::Result(res)) => {
             att.depth_after = Some(d);
@@ -245,5 +286,14 @@ fn close_frame<EXT: HasMon, DB: Database>(ctx: &mut Context<EXT, DB>, res: Instr
     if let Some(idx) = m.open.pop() {
         m.attempts[idx].depth_after = Some(d);
         m.attempts[idx].result = Some(res);
+    }
+    if let Some(evs) = m.sd_stack.pop() {
+        let ok = matches!(res, InstructionResult::Stop | InstructionResult::Return | InstructionResult::SelfDestruct | InstructionResult::ReturnContract);
+        if ok {
+            match m.sd_stack.last_mut() {
+                Some(p) => p.extend(evs),
+                None => m.sd_committed.extend(evs),
+            }
+        }
     }
 }
